@@ -287,7 +287,7 @@ def mon_stream(case, lines, meta):
     for i, c in enumerate(order):
         got = seen.get(c, [])
         if got != [pred[c]]:
-            return ("request %d is the %d. request to be first polled (order %s): the layer decided %s for it, but decision #%d of the "
+            return ("PINNED: request %d is the %d. request to be first polled (order %s): the layer decided %s for it, but decision #%d of the "
                     "reference stream of this seed is %s (StdRng::seed_from_u64(seed); per request, in first-poll order: error roll iff "
                     "error rate > 0, error iff roll < rate; otherwise latency roll iff latency rate > 0, delay iff roll < rate, by "
                     "random_range(min..=max) iff max > min, else min). Either the decisions are no longer a function of the seed and the "
@@ -303,7 +303,14 @@ def mon_stress(case, lines, meta):
     first K decisions of the seed's stream` (each request draws its rolls atomically). Reported in full."""
     for _, m in meta:
         if m.startswith("#stress-fail"):
-            return "parallel stress run violated the property: " + m[len("#stress-fail"):].strip()
+            body = m[len("#stress-fail"):].strip()
+            parts = body.split(" :: ")
+            fails = parts[1].split(" | ") if len(parts) > 1 else []
+            if fails and all(f.startswith("the multiset of the") for f in fails):
+                # only the comparison with the reference stream failed: that pins the decision function of the model
+                # (which rolls are drawn, in which order), not a clause of the property
+                return "PINNED: parallel stress run: " + body
+            return "parallel stress run violated the property: " + body
     return None
 
 
